@@ -139,6 +139,18 @@ ascent! {
         edge(_, field),
         local_type_of(field, type_);
 
+    // structs with nothing to serialise (unit structs, no fields, or every field skipped)
+    // have no field edge to carry them into the formatter, so they get an edge to themselves
+    // (like the unit struct roots above); otherwise a reference to them stays undefined
+    edge(root, root) <--
+        root(root),
+        is_struct(root),
+        !field(root, _);
+    edge(type_, type_) <--
+        edge(_, type_),
+        is_struct(type_),
+        !field(type_, _);
+
     relation crates(String);
     crates(n) <--
         ext_crate(c),
